@@ -13,6 +13,8 @@ use serde_json::{json, Value};
 use std::cell::{Cell, RefCell};
 
 pub const BUDGET_MARK: &str = "GDSL_MC_LOOP_BUDGET";
+/// script step meaning "at every callback"
+pub const EVERY: usize = usize::MAX;
 
 #[derive(Clone, Copy, Debug, PartialEq, Eq, Hash, Serialize, Deserialize)]
 pub enum LoopKind {
@@ -42,6 +44,8 @@ pub enum SOp {
     Collect(K),
     /// nested bfs().target(t).search()
     NestedBfs(K, K),
+    /// nested dfs / pfs search_path to t and a nested preorder from the node
+    NestedOther(K, K),
     /// clone a handle and drop it again
     CloneDrop(K),
 }
@@ -52,7 +56,7 @@ impl SOp {
             SOp::Mut(op) => op.name(),
             SOp::Degree(_) | SOp::IsConnected(..) | SOp::Find(..) => "query",
             SOp::Collect(_) => "nested-loop",
-            SOp::NestedBfs(..) => "nested-search",
+            SOp::NestedBfs(..) | SOp::NestedOther(..) => "nested-search",
             SOp::CloneDrop(_) => "clone",
         }
     }
@@ -64,6 +68,7 @@ impl SOp {
             SOp::Find(u, v) => format!("n{}.find({})", u, v),
             SOp::Collect(u) => format!("n{}.iter().collect()", u),
             SOp::NestedBfs(u, t) => format!("n{}.bfs().target(&{}).search()", u, t),
+            SOp::NestedOther(u, t) => format!("n{}.dfs()/.pfs().target(&{}).search_path(); n{}.preorder/order().search_nodes()", u, t, u),
             SOp::CloneDrop(u) => format!("drop(n{}.clone())", u),
         }
     }
@@ -94,6 +99,14 @@ fn run_sop<F: Fl>(w: &World<F>, s: &SOp) {
             let cfg = Cfg { kind: Kind::Bfs, transpose: false, target: Some(t), meth: Meth::None, res: ResK::Search };
             let _ = F::search(n(u), &cfg, &mut |_| true);
         }
+        SOp::NestedOther(u, t) => {
+            for kind in [Kind::Dfs, Kind::PfsMin] {
+                let cfg = Cfg { kind, transpose: false, target: Some(t), meth: Meth::None, res: ResK::Path };
+                let _ = F::search(n(u), &cfg, &mut |_| true);
+            }
+            let cfg = Cfg { kind: Kind::Pre, transpose: false, target: None, meth: Meth::None, res: ResK::Nodes };
+            let _ = F::search(n(u), &cfg, &mut |_| true);
+        }
         SOp::CloneDrop(u) => {
             drop(n(u).clone());
         }
@@ -115,6 +128,7 @@ pub fn script_ops(n: usize) -> Vec<SOp> {
             v.push(SOp::Find(u, t));
             if u != t {
                 v.push(SOp::NestedBfs(u, t));
+                v.push(SOp::NestedOther(u, t));
             }
         }
     }
@@ -173,7 +187,11 @@ impl LCase {
             }
         );
         for (i, o) in &self.script {
-            s += &format!("; at callback {} do {}", i, o.show());
+            if *i == EVERY {
+                s += &format!("; at every callback do {}", o.show());
+            } else {
+                s += &format!("; at callback {} do {}", i, o.show());
+            }
         }
         s
     }
@@ -218,8 +236,10 @@ pub fn run_case<F: Fl>(c: &LCase) -> Result<LRun, (String, String)> {
             *stale.borrow_mut() = Some(format!("callback {}: endpoints of the yielded edge carry wrong values", step));
         }
         for (i, o) in &c.script {
-            if *i == step {
-                fired.set(fired.get() + 1);
+            if *i == step || *i == EVERY {
+                if *i != EVERY || step == 0 {
+                    fired.set(fired.get() + 1);
+                }
                 run_sop::<F>(&w, o);
             }
         }
@@ -267,7 +287,7 @@ pub fn run_case<F: Fl>(c: &LCase) -> Result<LRun, (String, String)> {
     // (the mirror / symmetry invariants of the final state are C01 / C02's
     // business; here the effect of the operations must not depend on being
     // called from inside the loop)
-    if fired.get() == c.script.len() {
+    if fired.get() == c.script.len() && c.script.iter().all(|(i, _)| *i != EVERY) {
         let w2 = build_world::<F>(&vals, &c.conns);
         let seq = guarded(|| {
             let mut s: Vec<&(usize, SOp)> = c.script.iter().collect();
@@ -307,7 +327,7 @@ pub fn sweep<F: Fl>(job: &Job, out: &mut Out) {
             class,
             what,
             case: json!({"kind":"loopx","flavour":F::NAME,"case":c,"program":c.program(F::NAME)}),
-            order: (c.conns.len() * 100 + c.script.len() * 10 + c.script.iter().map(|s| s.0).sum::<usize>()) as u64,
+            order: (c.conns.len() * 100 + c.script.len() * 10 + c.script.iter().map(|s| if s.0 == EVERY { 50 } else { s.0 }).sum::<usize>()) as u64,
         });
     };
     for (si, conns) in all.iter().enumerate() {
@@ -327,6 +347,20 @@ pub fn sweep<F: Fl>(job: &Job, out: &mut Out) {
                         continue;
                     }
                 };
+                if c0 > 0 {
+                    for o in sops.iter().filter(|o| !o.adds_edge()) {
+                        crate::progress::tick();
+                        let ce = LCase { script: vec![(EVERY, *o)], ..base.clone() };
+                        out.stats.inc("evaluations");
+                        out.stats.inc("every_step_scripts");
+                        if matches!(o, SOp::Mut(_)) {
+                            out.stats.inc("nontrivial");
+                        }
+                        if let Err((class, what)) = run_case::<F>(&ce) {
+                            report(out, &ce, class, what);
+                        }
+                    }
+                }
                 for i in 0..c0 {
                     for o in &sops {
                         crate::progress::tick();
